@@ -55,8 +55,9 @@ TargetsIdle(p) == \A i \in BpIds : (bps[i].used /\ (i = pp[p].bp \/ reg[leader[p
 HookStep == \/ LRhDeq
             \/ (inSlot # <<>> /\ (pp[inSlot[1].part].started \/ TargetsIdle(inSlot[1].part)) /\ LDispRecv)
             \/ \E p \in Parts : TargetsIdle(p) /\ (LPpRecv(p) \/ (pp[p].todo # <<>> /\ Head(pp[p].todo)[1] = "flush" /\ LPpStep(p)))
-            \/ \E i \in BpIds : \/ (bps[i].in # <<>> /\ (bps[i].out.busy /\ bps[i].out.res # "pending" => ~AnswerFirst(i)) /\ LBpRecv(i))
-                                 \/ ((bps[i].in = <<>> \/ AnswerFirst(i)) /\ LBpResp(i))
+            \/ \E i \in BpIds : \/ (bps[i].used /\ bps[i].in # <<>> /\ (bps[i].out.busy /\ bps[i].out.res # "pending" => ~AnswerFirst(i)) /\ LBpRecv(i))
+                                 \/ (bps[i].used /\ bps[i].out.busy /\ bps[i].out.res # "pending"
+                                     /\ (IF bps[i].in = <<>> THEN TRUE ELSE AnswerFirst(i)) /\ LBpResp(i))
             \/ \E r \in rbs : LRbStart(r)
 \* requests to one broker travel over one connection and are answered in the order they were written
 SentAt(i) == LastIdx(LAMBDA r : r.a \in {"bpsend", "rbsend"} /\ r.bp = i)
@@ -75,7 +76,8 @@ Pending == Cardinality({m \in Msgs : m < nextSub /\ outcome[m] = "none"})
 NoOfferPending == \A p \in Parts : IF pp[p].todo = <<>> THEN TRUE ELSE Head(pp[p].todo)[1] = "flush"
 ConductNext == IF EagerEnabled THEN EagerStep /\ UNCHANGED hist
                ELSE \/ (Pending < SubmitWindow /\ LSubmit)
-                    \/ \E i \in BpIds : FirstOnConnection(i) /\ NoOfferPending /\ LBrokerHandle(i)
+                    \/ \E i \in BpIds : bps[i].used /\ bps[i].out.busy /\ bps[i].out.res = "pending" /\ NoOfferPending /\ FirstOnConnection(i)
+                                         /\ LBrokerHandle(i)
                     \/ LLeaderMove
                     \/ (HookStep /\ UNCHANGED hist)
 ConductSpec == Init /\ [][ConductNext]_vars
